@@ -52,6 +52,7 @@ CHECKERS = [
 ]
 
 
+SIGNED_INT = re.compile(r'^(int|long|long long|short|signed char|ssize_t|ptrdiff_t)$')
 NARROW = {'unsigned short': 16, 'short': 16, 'unsigned char': 8, 'signed char': 8, 'char': 8}
 
 
@@ -475,6 +476,12 @@ class FnTaint(object):
             return True
         if depth >= 2:
             return False
+        # `x <= size - n` with a wire-derived n: the unsigned subtraction wraps when n > size, so the comparison bounds nothing
+        # unless n <= size is itself established where the comparison is made
+        for x in b.walk():
+            if x['k'] == 'BinaryOperator' and x.get('op') == '-' and len(x['ch']) == 2 and self.et(x['ch'][1]) and 'v' not in x['ch'][1]:
+                if not self.sub_cannot_wrap(x, at_node):
+                    return False
         tv = self.tainted_vars(b)
         if not tv:
             return False
@@ -489,6 +496,25 @@ class FnTaint(object):
             if node is None or not self.bounded(node, at_node, depth + 1):
                 return False
         return self.non_amplifying(b)
+
+    def sub_cannot_wrap(self, sub, at_node):
+        """for `m - n` (n tainted): a dominating guard establishes n <= m (or n < m)"""
+        m, n = P_canon(A.strip_casts(sub['ch'][0])), P_canon(A.strip_casts(sub['ch'][1]))
+        for (cn, truth) in self.guards_at(at_node):
+            c = cn
+            pol = truth
+            while c['k'] == 'UnaryOperator' and c.get('op') == '!':
+                pol = not pol
+                c = c['ch'][0]
+            if c['k'] == 'BinaryOperator' and c.get('op') in ('<', '<=', '>', '>=') and len(c['ch']) == 2:
+                l, r = P_canon(A.strip_casts(c['ch'][0])), P_canon(A.strip_casts(c['ch'][1]))
+                op = c['op']
+                # n <= m  /  n < m  true;  m >= n / m > n true;  n > m false; m < n false
+                if (l, r) == (n, m) and ((op in ('<', '<=') and pol) or (op == '>' and not pol)):
+                    return True
+                if (l, r) == (m, n) and ((op in ('>', '>=') and pol) or (op == '<' and not pol)):
+                    return True
+        return False
 
     def amplified_bound(self, b):
         """bound side adds to / multiplies a non-constant quantity (avail + 4, size * 2): larger than what it names"""
@@ -556,8 +582,16 @@ class FnTaint(object):
                     cache.append(n)
         for n in cache:
             if self.status_ok_dominates(n, at):
-                for a in self.explicit_args(n):
+                g = self.eng.fx.funcs.get(n.get('fn'))
+                for k, a in enumerate(self.explicit_args(n)):
                     if self.et(a):
+                        # a check whose parameter is *signed* does not bound an unsigned argument: SeekRelative(int32) with a wire value >= 2^31 is a (succeeding) backward seek
+                        pt = g.ptype(g.params[k]) if (g is not None and k < len(g.params)) else None
+                        at_ = A.strip_casts(a).type().replace('const ', '').strip()
+                        if pt is not None and SIGNED_INT.match(pt.replace('const ', '').strip()) and at_.startswith('unsigned'):
+                            self.sign_converting = getattr(self, 'sign_converting', [])
+                            self.sign_converting.append((n, a, pt))
+                            continue
                         out.append((a, 'checking call %s succeeded (line %s)' % (n.text(), n.get('l'))))
         return out
 
